@@ -187,7 +187,12 @@ PROPS["C14"] = dict(
     rule=("Scott/Parigot/Stump-Fu operations and the 7 conversions for m, n <= 4 (quick) / 6 (thorough), binary 0..40/70 "
           "(results of succ/pred/shl0 compared after decoding with leading zeroes allowed), orders as documented"),
     trusted_base=DATA_TB, assumptions=DATA_ASM,
-    explanation="Bounded in-kernel grid on the generated constants + correspondence/oracle on a larger grid; soundness as C13.")
+    explanation=("Theorems for ALL m, n (and, for binary, all bit strings including leading zeroes) on the generated constants: "
+                 "Scott succ/pred/is_zero/add/mul/pow (case lemmas + Z-unfolding), Parigot succ/pred/is_zero/add/sub/mul (recursor "
+                 "lemma), Stump-Fu succ/pred/is_zero/add/mul, binary succ/pred/shl0/shl1/lsb/is_zero/strip (pair-state folds "
+                 "proved equal to increment/decrement/strip on bit lists, canonical bit lists are unique), and all 7+1 conversions "
+                 "(Proofs/{Scott,Parigot,StumpFu,Binary}Arith.v); hence NOR and HNO return the expected encoding (C07) and any "
+                 "result of APP/HAP is it (C06). Termination of APP/HAP where documented as suitable: bounded in-kernel grid."))
 PROPS["C15"] = dict(
     suites=["ops:signed"], oracle_re=r"oracle:C15:", gen=True,
     rule=("four encodings, all pairs (p, n) with components <= 3/4 for the unary operations and p1, n1, p2, n2 <= 2/3 for "
